@@ -348,6 +348,15 @@ func c07ws(p *Program, r *Report, rule string) {
 		if gi+1 >= len(pa.Events) || pa.Events[gi+1].Kind != "defer" || pa.Events[gi+1].Callee != "bpool.Put" || argKey(pa.Events[gi+1], 0) != b {
 			return false, "bpool.Put(b) is not deferred right after Get"
 		}
+		nPut := 0
+		for _, e := range pa.Events {
+			if e.Kind == "call" && e.Callee == "bpool.Put" {
+				nPut++
+			}
+		}
+		if nPut != 1 {
+			return false, fmt.Sprintf("the buffer is returned to the pool %d times on this path (a double Put hands the same buffer to two readers)", nPut)
+		}
 		for _, e := range pa.Events {
 			if e.Kind != "call" && e.Kind != "store" && e.Kind != "return" {
 				continue
